@@ -94,7 +94,7 @@ func profileFor0(name string) *Profile {
 	case "C12":
 		p.ModeBEvery, p.InjectP = 2, 0.2
 		p.W["restart"] = 3
-		p.Assumptions = []string{"every second run uses the interposed (mode B) node, where a denomination-changing test action is registered under ACTION_SWAP and lone deliveries may get an injected downstream failure"}
+		p.Assumptions = []string{"every second run uses the interposed (mode B) node, where a denomination-changing test action is registered under ACTION_SWAP and lone deliveries may get an injected downstream failure", "a run whose fold leaves the range of a 256-bit integer in some entry is not compared further (no implementation can record such a total)"}
 	case "C13":
 		p.Checkpoint = []string{"queries"}
 		p.W["checkpoint"] = 3
